@@ -69,6 +69,9 @@ def parse_vc(path):
     item = None
     for raw in open(path).read().splitlines():
         m = DIRECTIVE.match(raw)
+        if m and m.group(1) == "rlimit":
+            vc["rlimit"] = int(m.group(2).strip())
+            continue
         if m and m.group(1) == "use":
             vc["uses"].append("use " + m.group(2).strip().rstrip(";") + ";")
             continue
@@ -285,7 +288,7 @@ def run_unit(scratch, prop, unit, exp, tier):
         for p in problems:
             res["undecided"].append("engine V [%s]: %s" % (unit, p))
         return res
-    vr = run_verus_file(src, wd)
+    vr = run_verus_file(src, wd, rlimit=vc.get("rlimit"))
     res["cmds"].append(vr["cmd"].replace(src, "<scratch>/verus-%s/%s.rs" % (unit, unit)))
     open(os.path.join(VERIF, "logs", "verus-%s.err" % unit), "w").write(vr["raw_err"])
     if vr["timed_out"] or vr["js"] is None:
